@@ -954,6 +954,100 @@ func runC20(c *Ctx) {
 			}
 		}
 	}
+	// ---------- a received object, its signature cleared, signed again by a failing signer ----------
+	// both header buckets still hold the bytes they were received with; the object must not serialise
+	{
+		a := int64(alg)
+		for _, f := range []int{fErr, fErrBytes, fEmptyNil} {
+			for k := 0; k < 12; k++ {
+				r := mon.NewRand(uint64(c.Seed)).Sub(uint64(2040000 + k))
+				l := gen.RandLayer(r, gen.LayerOpts{Alg: &a, MaxProt: 3, MaxUnprot: 3, ScramblePct: 50})
+				if k%2 == 0 && len(l.Unprot.Kids) == 0 {
+					l.Unprot = refcbor.NMap(refcbor.NInt(4), refcbor.NBstr([]byte("kid")))
+				}
+				parent := &cose.Sign1Message{Headers: cose.Headers{Protected: cose.ProtectedHeader{int64(1): alg}}, Payload: []byte("parent"), Signature: mon.FixedSig}
+				type resign struct {
+					name string
+					run  func(sg cose.Signer) (err error, stored []byte, emit func() ([]byte, error), ok bool)
+				}
+				for _, rs := range []resign{
+					{"Sign1Message", func(sg cose.Signer) (error, []byte, func() ([]byte, error), bool) {
+						var m cose.Sign1Message
+						if m.UnmarshalCBOR((&gen.WSign1{L: l, Payload: []byte("p"), Sig: mon.FixedSig, Tagged: true}).Bytes()) != nil {
+							return nil, nil, nil, false
+						}
+						m.Signature = nil
+						e := m.Sign(gen.Entropy, nil, sg)
+						return e, m.Signature, m.MarshalCBOR, true
+					}},
+					{"UntaggedSign1Message", func(sg cose.Signer) (error, []byte, func() ([]byte, error), bool) {
+						var m cose.UntaggedSign1Message
+						if m.UnmarshalCBOR((&gen.WSign1{L: l, Payload: []byte("p"), Sig: mon.FixedSig}).Bytes()) != nil {
+							return nil, nil, nil, false
+						}
+						m.Signature = m.Signature[:0]
+						e := m.Sign(gen.Entropy, nil, sg)
+						return e, m.Signature, m.MarshalCBOR, true
+					}},
+					{"Signature", func(sg cose.Signer) (error, []byte, func() ([]byte, error), bool) {
+						var m cose.Signature
+						if m.UnmarshalCBOR((&gen.WSignature{L: l, Sig: mon.FixedSig}).Bytes()) != nil {
+							return nil, nil, nil, false
+						}
+						m.Signature = nil
+						e := m.Sign(gen.Entropy, sg, []byte{0x40}, []byte("p"), nil)
+						return e, m.Signature, m.MarshalCBOR, true
+					}},
+					{"Countersignature", func(sg cose.Signer) (error, []byte, func() ([]byte, error), bool) {
+						var m cose.Countersignature
+						if m.UnmarshalCBOR((&gen.WSignature{L: l, Sig: mon.FixedSig}).Bytes()) != nil {
+							return nil, nil, nil, false
+						}
+						m.Signature = []byte{}
+						e := m.Sign(gen.Entropy, sg, parent, nil)
+						return e, m.Signature, m.MarshalCBOR, true
+					}},
+					{"SignMessage", func(sg cose.Signer) (error, []byte, func() ([]byte, error), bool) {
+						var m cose.SignMessage
+						body := gen.RandLayer(r, gen.LayerOpts{MaxProt: 2, MaxUnprot: 2, ScramblePct: 50})
+						if m.UnmarshalCBOR((&gen.WSign{L: body, Payload: []byte("p"), Sigs: []*gen.WSignature{{L: l, Sig: mon.FixedSig}}}).Bytes()) != nil {
+							return nil, nil, nil, false
+						}
+						m.Signatures[0].Signature = nil
+						e := m.Sign(gen.Entropy, nil, sg)
+						return e, m.Signatures[0].Signature, m.MarshalCBOR, true
+					}},
+				} {
+					sg := mkSigner(alg, f)
+					key := "received-resigned/" + rs.name + "/" + faultNames[f]
+					in := map[string]any{"cell": key, "case": k}
+					var err error
+					var stored []byte
+					var emit func() ([]byte, error)
+					var ok bool
+					if guard(rec, rs.name+".Sign(received, cleared)", in, func() { err, stored, emit, ok = rs.run(sg) }) || !ok {
+						continue
+					}
+					rec.Eval(1)
+					rec.Event("received-resigned-cases")
+					rec.Class(fmt.Sprintf("%s/refused=%v/unprot-empty=%v", key, err != nil, len(l.Unprot.Kids) == 0))
+					if len(stored) > 0 {
+						rec.Violate("signature-stored-on-error", key, fmt.Sprintf("the signer failed (call returned %v) and the slot holds %s", err, hexs(stored)), in)
+						continue
+					}
+					var out []byte
+					var merr error
+					if guard(rec, rs.name+".MarshalCBOR(after failed signing)", in, func() { out, merr = emit() }) {
+						continue
+					}
+					if merr == nil {
+						rec.Violate("half-signed-serialised", key, "signing failed, yet the object serialises: "+hexs(out), in)
+					}
+				}
+			}
+		}
+	}
+	rec.Require("received-resigned-cases", 50)
 	rec.Require("opaque-signer-cases", 100)
 	rec.Require("entropy-fault-surfaced", 50)
 	rec.Require("entropy-reader-consulted", 100)
